@@ -131,14 +131,21 @@ def _maxlen(n):
 class FragGen(object):
     """The generator of P-DATA-TF fragments a user puts on the queue (what DIMSEMessage.encode returns)."""
 
-    def __init__(self, fids, ctx=1):
+    def __init__(self, fids, ctx=1, fail_at=None):
         self.fids = list(fids)
         self.yielded = 0
+        self.fail_at = fail_at       # the source of the message fails when fragment number fail_at (0-based) is asked for
+        self.failed = False
 
     def __iter__(self):
         return self
 
     def __next__(self):
+        if self.fail_at is not None and self.yielded >= self.fail_at:
+            self.failed = True
+            if self.fail_at == 0 and not self.fids:
+                raise StopIteration          # a message of which nothing can be produced at all (no fragment fits)
+            raise IOError('the source of the outgoing message cannot be read')
         if self.yielded >= len(self.fids):
             raise StopIteration
         fid = self.fids[self.yielded]
@@ -149,6 +156,10 @@ class FragGen(object):
     next = __next__
 
     def remaining(self):
+        if self.failed:
+            return 0
+        if self.fail_at is not None:
+            return self.fail_at + 1 - self.yielded      # the fragments before the failure and the failure itself
         return len(self.fids) - self.yielded
 
 
@@ -240,12 +251,14 @@ class Run(object):
         self.p.send(obj if obj is not None else user_pdu(kind, f))
         self.trace.append({'ev': 'UserPut', 'item': {'k': kind, 'f': list(f), 'pdvs': [], 'grey': False}})
 
-    def user_gen(self, fids):
-        g = FragGen(fids)
+    def user_gen(self, fids, fail_at=None):
+        g = FragGen(fids, fail_at=fail_at)
         self.gens.append(g)
         self.p.send(g)
-        self.trace.append({'ev': 'UserPut', 'item': {'k': 'GEN', 'frags': [
-            {'k': 'PD', 'f': [fid], 'pdvs': [], 'grey': False} for fid in fids]}})
+        frags = [{'k': 'PD', 'f': [fid], 'pdvs': [], 'grey': False} for fid in (fids if fail_at is None else fids[:fail_at])]
+        if fail_at is not None:
+            frags.append({'k': 'BAD', 'f': [], 'pdvs': [], 'grey': False})
+        self.trace.append({'ev': 'UserPut', 'item': {'k': 'GEN', 'frags': frags}})
 
     def tick(self, expire=True):
         t = self.p.timer
